@@ -261,9 +261,13 @@ def evaluate(table, spec, cls, container, on_node, n=None):
                 for _ in range(k - 1):
                     obj = obj * a
         except Exception as e:
+            if scale_extreme(table, a, Fr(10) ** 100, k):
+                raise Degenerate(spec)
             raise EvalError(spec, e)
         m = Model(dims.times(ma.dim, k), [x**k for x in ma.mags], ma.nops + k)
         _range_guard(spec, m)
+        if scale_extreme(table, obj):
+            raise Degenerate(spec)
         r = on_node(spec, obj, m, ((a, ma),))
         return obj, (r or m)
     a, ma = evaluate(table, spec[1], cls, container, on_node, n)
@@ -282,17 +286,51 @@ def evaluate(table, spec, cls, container, on_node, n=None):
     except EvalError:
         raise
     except Exception as e:
+        if scale_extreme(table, a, Fr(10) ** 50) or scale_extreme(table, b, Fr(10) ** 50):
+            raise Degenerate(spec)
         raise EvalError(spec, e)
     if t == "*":
         m = Model(dims.combine(ma.dim, mb.dim, 1), [x * y for x, y in zip(ma.mags, mb.mags)], ma.nops + mb.nops + 1)
     else:
         m = Model(dims.combine(ma.dim, mb.dim, -1), [x / y if y else None for x, y in zip(ma.mags, mb.mags)], ma.nops + mb.nops + 1)
     _range_guard(spec, m)
+    if scale_extreme(table, obj):
+        raise Degenerate(spec)
     r = on_node(spec, obj, m, ((a, ma), (b, mb)))
     return obj, (r or m)
 
 
 _BIG = Fr(10) ** 120
+
+
+def scale_extreme(table, obj, bound=Fr(10) ** 100, power=1):
+    """True when the unit factors of obj (each raised to its exponent x power), their product, or the stored
+    value(s) leave 10^-100 .. 10^100: with units such as 'ag' (1e-21 kg) an 18th power is not representable
+    in a double, and what the library then computes (0.0, inf, OverflowError) is float overflow / underflow,
+    which is outside the examined input class (DESIGN.md section 7)."""
+    try:
+        items = dims.items_of(obj.GetQuantity())
+    except Exception:
+        return False
+    total = Fr(1)
+    for _c, u, e in items:
+        try:
+            f = table.factor(u) ** (abs(e) * power)
+        except Exception:
+            return False
+        if f > bound or f < 1 / bound:
+            return True
+        total *= f if e > 0 else 1 / f
+    if total > bound or total < 1 / bound:
+        return True
+    try:
+        for v in values_of(obj):
+            v = abs(float(v)) ** power
+            if v != 0 and not (1e-100 < v < 1e100):
+                return True
+    except Exception:
+        return True
+    return False
 
 
 def _range_guard(spec, m):
